@@ -94,14 +94,27 @@ Proof.
     intros H. destruct (IH H) as (r' & Hin & Hr). exists r'. split; [now right|assumption].
 Qed.
 
-Lemma check_signature_ok z runs cv :
-  check_signature_runs z runs false cv = Ok tt ->
+Lemma check_signature_ok z runs ovc cv :
+  check_signature_runs z runs ovc cv = Ok tt ->
   z = false /\ cv = true /\ exists r, In r runs /\ reports_success r = true.
 Proof.
   unfold check_signature_runs. destruct z; [discriminate|].
-  destruct (cert_loop runs) as [[|]|e] eqn:E; cbn [orb]; try discriminate.
+  destruct (cert_loop runs) as [[|]|e] eqn:E; try discriminate.
   destruct cv; [|discriminate]. intros _. repeat split. now apply cert_loop_true.
 Qed.
+
+(* the code before fix 0b54cc6b: the same with only_valid_cert off ... *)
+Lemma check_signature_before_fix_off z runs cv :
+  check_signature_runs_before_fix z runs false cv = check_signature_runs z runs false cv.
+Proof.
+  unfold check_signature_runs_before_fix, check_signature_runs. destruct z; [reflexivity|].
+  destruct (cert_loop runs) as [[|]|e]; reflexivity.
+Qed.
+
+(* ... and today's verdict does not depend on only_valid_cert at all *)
+Lemma check_signature_ovc_irrelevant z runs ovc cv :
+  check_signature_runs z runs ovc cv = check_signature_runs z runs false cv.
+Proof. reflexivity. Qed.
 
 Lemma sign_statement_ok r s : sign_statement r = Ok s ->
   exists o, r = Ran o /\ undecodable o = false /\ signaled o = false /\ p_out o = [] /\ s = outfile o /\ s <> [].
